@@ -602,3 +602,66 @@ Fixpoint sp_mrun (s : sstate) (ms : list mop) : list (Z * obs * option obs) :=
       let s2 := (sp_read (fst s1), option_map sp_read (snd s1)) in
       (r, sp_observe (fst s1), option_map sp_observe (snd s1)) :: sp_mrun s2 rest
   end.
+
+(* ================================================================ archive_mstring (archive_string.c, POSIX branch)
+   Three stored forms (multibyte in the locale, UTF-8, wide) with flags saying which are valid; the
+   getters convert lazily and cache.  The locale conversions are parameters.  This small model is
+   used only for the theorem that the three views of a string agree (EntryProofs.v, views_agree);
+   the entry model above keeps one byte string per field. *)
+Record conv := mkConv {
+  m2w : bytes -> option (list N);      (* archive_wstring_append_from_mbs  (mbstowcs) *)
+  w2m : list N -> option bytes;        (* archive_string_append_from_wcs   (wcstombs) *)
+  u2m : bytes -> option bytes;         (* archive_strncpy_l, UTF-8 -> locale *)
+  m2u : bytes -> option bytes }.       (* archive_strncpy_l, locale -> UTF-8 *)
+Record mstr := mkMstr { has_mbs : bool; has_utf8 : bool; has_wcs : bool;
+                        f_mbs : bytes; f_utf8 : bytes; f_wcs : list N }.
+Definition ms_copy_mbs (s : bytes) : mstr := mkMstr true false false s [] [].
+Definition ms_copy_utf8 (s : bytes) : mstr := mkMstr false true false [] s [].
+Definition ms_copy_wcs (w : list N) : mstr := mkMstr false false true [] [] w.
+
+(* archive_mstring_get_mbs; result None = NULL or conversion failure *)
+Definition ms_get_mbs (c : conv) (m : mstr) : mstr * option bytes :=
+  if has_mbs m then (m, Some (f_mbs m))
+  else
+    match (if has_wcs m then w2m c (f_wcs m) else None) with
+    | Some b => (mkMstr true (has_utf8 m) (has_wcs m) b (f_utf8 m) (f_wcs m), Some b)
+    | None =>
+        match (if has_utf8 m then u2m c (f_utf8 m) else None) with
+        | Some b => (mkMstr true (has_utf8 m) (has_wcs m) b (f_utf8 m) (f_wcs m), Some b)
+        | None => (m, None)
+        end
+    end.
+(* archive_mstring_get_wcs: "try converting UTF8 to MBS first if MBS does not exist yet" *)
+Definition ms_get_wcs (c : conv) (m : mstr) : mstr * option (list N) :=
+  if has_wcs m then (m, Some (f_wcs m))
+  else
+    let m1 := if has_mbs m then m else fst (ms_get_mbs c m) in
+    if has_mbs m1 then
+      match m2w c (f_mbs m1) with
+      | Some w => (mkMstr true (has_utf8 m1) true (f_mbs m1) (f_utf8 m1) w, Some w)
+      | None => (m1, None)
+      end
+    else (m1, None).
+(* archive_mstring_get_utf8 *)
+Definition ms_get_utf8 (c : conv) (m : mstr) : mstr * option bytes :=
+  if has_utf8 m then (m, Some (f_utf8 m))
+  else
+    let m1 := if has_mbs m then m else fst (ms_get_mbs c m) in
+    if has_mbs m1 then
+      match m2u c (f_mbs m1) with
+      | Some u => (mkMstr true true (has_wcs m1) (f_mbs m1) u (f_wcs m1), Some u)
+      | None => (m1, None)
+      end
+    else (m1, None).
+(* archive_mstring_update_utf8: store the UTF-8 form, then eagerly convert to MBS and to WCS *)
+Definition ms_update_utf8 (c : conv) (u : bytes) : mstr * bool :=
+  match u2m c u with
+  | None => (mkMstr false true false [] u [], false)
+  | Some b =>
+      match m2w c b with
+      | None => (mkMstr true true false b u [], false)
+      | Some w => (mkMstr true true true b u w, true)
+      end
+  end.
+
+Inductive msget := GetMbs | GetWcs | GetUtf8.
